@@ -205,7 +205,7 @@ def rule_WB(ctx):
     ba = m.classes['BitArray']
     for name, f in sorted(ba.methods.items()):
         val = [x for x in own_walk(f.node) if isinstance(x, ast.Assign) and isinstance(x.value, ast.Call) and isinstance(x.value.func, ast.Attribute)
-               and x.value.func.attr == '_validate_slice' and isinstance(x.targets[0], ast.Tuple)]
+               and x.value.func.attr in m.validators and isinstance(x.targets[0], ast.Tuple)]
         if not val:
             continue
         s_var, e_var = [t.id for t in val[0].targets[0].elts]
@@ -578,6 +578,10 @@ def _nonzero_guarded(f, node, div):
                     in_body = any(y is node for b in s.body for y in ast.walk(b))
                     # enclosing positive test on the divisor itself
                     t = s.test
+                    conj = t.values if isinstance(t, ast.BoolOp) and isinstance(t.op, ast.And) else [t]
+                    if in_body and any(ast.unparse(c) == dt or (isinstance(c, ast.Compare) and ast.unparse(c.left) == dt and isinstance(c.ops[0], (ast.Gt, ast.NotEq))
+                                                               and G.is_zero(c.comparators[0])) for c in conj):
+                        return True
                     if in_body and (ast.unparse(t) == dt or (isinstance(t, ast.Compare) and ast.unparse(t.left) == dt and isinstance(t.ops[0], (ast.Gt, ast.NotEq)) and G.is_zero(t.comparators[0]))):
                         return True
                     return scan(s.body if in_body else s.orelse)
